@@ -312,6 +312,23 @@ theorem C11_writer_failstop (ops : List WOp) (hops : ∀ op ∈ ops, op.Bounded)
   rw [hinv.decode_out] at this
   exact this
 
+/-- End to end under WRITE failures and truncation together: the sender's `conn.Write`s fail
+    wherever and however the trunk makes them fail, the trunk is additionally cut at any byte `k`,
+    and the receiving end runs in any way on the frames that come out of what got through: what a
+    reader has received on a connection opened before traffic is a prefix of the payloads of the
+    frames the sender put out WHOLE for that id — the torn frame, if any, contributes nothing and
+    nothing follows it. -/
+theorem C11_end_to_end_write_failures (cfg : Cfg) (ops : List WOp) (hops : ∀ op ∈ ops, op.Bounded) (k : Nat)
+    (pre post : List Ev) (id h : Nat) (s : MuxSt)
+    (hg : bigBuffers (pre ++ Ev.openNew id h :: post) = true)
+    (hr : run (MuxSt.init cfg) (pre ++ Ev.openNew id h :: post) = some s)
+    (hfirst : countFor id (delivered pre) = 0)
+    (hdel : delivered (pre ++ Ev.openNew id h :: post) <+: (decode ((wrun true ops).out.take k)).1) :
+    received h (pre ++ Ev.openNew id h :: post) <+: payloadsOf id (wrun true ops).whole := by
+  have h1 := C11_no_gap_opened_first cfg pre post id h s hg hr hfirst
+  have h2 := hdel.trans ((C11_writer_failstop ops hops).2.1 k)
+  exact h1.trans (payloadsOf_prefix (id := id) h2)
+
 /-- Non-vacuity: a write torn inside its payload, then a write on another connection. The torn
     frame is the last thing on the trunk, the later write does not go out at all. -/
 example :
